@@ -8,20 +8,21 @@ ALL = ["C%02d" % i for i in range(1, 21)]
 EXT = {
  "C01": "default kinds str_odd / str_dot / str_kw / float_exp / int_big; undescribed return entries; long descriptions swept over 55 lengths; the keep axis; DocLines.tla (line-level emit and parse models, emit side compared with the real text). Batch 7: every description length 40..149 exactly (the wrap column falls between every two words in turn) and a short neighbour parameter on either side of the long one. Batch 8: non-ASCII description openers (characters whose case-folded form is longer than the character).",
  "C02": "type shapes Lit2 / LitP; return entries WITH defaults (literal, code-quoted expression, None) for interfaces of <= 1 parameter. Batch 7: equal values of different types in the default pools (1.0 == True == 1).",
- "C03": "hop docstring_keep and default kind str_kw; batch 7: a one-character string default.",
+ "C03": "hop docstring_keep and default kind str_kw; batch 7: a one-character string default. Batch 8b: the chain domain's Literal has its members in descending order.",
  "C04": "interfaces and parameters without any prose and the Body/Compiles clause; emit_default_doc as an axis of the configuration; descriptions that announce a default of their own (word_defaults). Batch 8: a third of the cases respell their type constants with double quotes (Literal[\"a\", \"b\"]).",
- "C05": "EnsurePK with key candidates by NAME; the hybrid emission is additionally read through its embedded `__table__ = Table(...)` call. Batch 7: description openers as a pool (a marker-stripping step must not eat an opener that begins with the marker's characters).",
- "C06": "Literal shapes with digits/underscores (Lit2) and with regex-special members (LitP). Batch 7: two-paragraph interface prose, compared paragraph by paragraph.",
+ "C05": "EnsurePK with key candidates by NAME; the hybrid emission is additionally read through its embedded `__table__ = Table(...)` call. Batch 7: description openers as a pool (a marker-stripping step must not eat an opener that begins with the marker's characters). Batch 8b: identifiers with a leading underscore.",
+ "C06": "Literal shapes with digits/underscores (Lit2) and with regex-special members (LitP). Batch 7: two-paragraph interface prose, compared paragraph by paragraph. Batch 8b: a batch of parses keeps the returned interfaces and re-reads them at the end (no result may be changed by a later parse).",
  "C07": "signature shapes odd_defaults and posonly; bodies that are nothing but a docstring (doconly) and docstrings that re-emit as empty (types_only, blank), action GiveUp; a non-injected failure is diagnostic only. Batch 7: headers Python reads and the line scanner does not (esc_backslash, comment_apostrophe = LineScan.tla's counterexamples); giving up on them is allowed (MayGiveUp), writing a half-edited file is not. Batch 8: a call-style decorator at column 0 (decorated_call).",
  "C08": "doc kind ellipsis; hostile descriptions in the sqlalchemy / json_schema formats; type/default mismatches (x: str = None) in the fix domain. Batch 7: the comma-introduced closing default clause ('..., defaults to 5') on parameters and on return entries. Batch 8: the quick sample is stratified (every stratum of the two-parameter behaviours is represented first).",
  "C10": "second choice point OrderedScan (which default-announcing phrase wins) with its own pinned configuration and scan inputs for three parsers x three styles; third: conversions of ONE parsed object the caller keeps (CallShared, constant Aliases, refuted by TLC under aliasing), 4 sources x 8 targets from the kept object and from fresh copies. Batch 7: fourth choice point, a process-wide lookup table (CallTable / Registers; TLC must refute Functional when lookups leave entries behind and prove TableReadOnly as built), two interfaces with type names no table holds as separate inputs, and a diagnostic naming every module-level table of the package that changed during the calls.",
- "C11": "tokens TAB / NBSP / ' or ' / ' of ' and the adhoc-type entry point; each of the three doctrans rounds is its own monitored call. Batch 7: pumped inputs (Loops.tla Mode pumped: a token or a token truncated mid-way, one token repeated, an optional word, at five syntactic positions; model PumpK 4/6, concrete runs of 40) under a 20 s wall-clock watchdog -- the loops CPython runs in C (regular expressions) are observed, not trusted.",
+ "C11": "tokens TAB / NBSP / ' or ' / ' of ' and the adhoc-type entry point; each of the three doctrans rounds is its own monitored call. Batch 7: pumped inputs (Loops.tla Mode pumped: a token or a token truncated mid-way, one token repeated, an optional word, at five syntactic positions; model PumpK 4/6, concrete runs of 40) under a 20 s wall-clock watchdog -- the loops CPython runs in C (regular expressions) are observed, not trusted. Batch 8b: emit entry points with emit_default_doc=False and with emit_types=False / word_wrap=False.",
  "C12": "interface A2 (a strict extension of A) and D (a required parameter of a non-builtin type, an Optional[str] with a default); equivalence up to the function format's documented `=None` normalisation; every run is also recorded as a trace and validated by TLC against Sync.tla's own action (TraceSync.tla), and that verdict decides KNOWN-FINDING vs VIOLATION. Batch 7: surroundings that NAME the targets (`__all__`, strings, a registry: Arounds mentions) and a one-line module docstring (moddoc; the re-wrap is a listed finding with its own as-built action, incl. the optional re-render of the truth file).",
  "C13": "history variable prev: an earlier call from the same input in the same process. Batch 7: axis vals -- an evaluated value whose members compare equal but are different constants (0, 1, 2, True, 2.5).",
  "C14": "driver (f): generated SQLAlchemy models (class and Table, every keyword in every spelling), classes, argparse functions and JSON-schemas; entries documented beyond the signature are accepted by SigCovered. Batch 7: the `, optional` marker and types with commas (Tuple[float, float], Dict[str, int]) in generated Google / NumPy docstrings. Batch 8: generated docstrings also document the variadic catch-alls (both spellings) and a stale name.",
  "C15": "dashed underline lines in header and footer; section kinds both / params / ret; routes docstring (with the original text), ir (from the interface alone) and function (parse + emit); clause HeaderWhole; the summary on its own line or right behind the opening quotes. Batch 7: line kind K -- a prose line that begins with a section keyword used as an ordinary word (Raises.. / Returns.. / Args.. / Kwargs.. / Parameters..), every keyword in every position of header and footer.",
  "C16": "name shapes ending in characters of '_tbl'; RoutesDescribeModel through the real route parser. Batch 7: on the document, nothing said under a model's paths (summaries, descriptions, $refs) names another model of the document.",
- "C17": "APIs route_parse / openapi_bulk with the yaml_block slot; API gen_phase2 with the import_from slot. Batch 7: API gen_imports_file (gen --imports-from-file with bare file names from inside the project directory, which is on sys.path).",
+ "C17": "APIs route_parse / openapi_bulk with the yaml_block slot; API gen_phase2 with the import_from slot. Batch 7: API gen_imports_file (gen --imports-from-file with bare file names from inside the project directory, which is on sys.path). Batch 8b: payload kind pickled (a bytes literal next to type=pickle.loads); un-pickling (audit event pickle.find_class) counts as running data.",
+ "C18": "batch 8b: every single import is repeated under -OO (and -O in the thorough tier); the public names left bound must be those of the plain run.",
  "C19": "mixed-kind inputs under --parse infer; ImportsCover as its own clause, judged in every cell that writes a module.",
  "C20": "a dotted exposed module with self-naming black/white lists (the blacklist wins); history option prior (an earlier real run populated the output directory); a sub-package whose name begins with the root package's name, blacklisted as <root>.<leaf>. Batch 8: an __init__ that re-exports from its module and from a sub-package (Exmod axis reexport).",
 }
